@@ -135,3 +135,113 @@ package verifspec
 //@   param x: u64
 //@   returns nat
 //@   ensures (x.$high == 0 ==> result == x.$low) && (x.$high != 0 ==> result >= 4294967296)
+
+// ---- $div64: restoring shift-subtract division on magnitudes, signs applied at the end.
+// pw(n) = 2^n (defined by pw(0) = 1, pw(n+1) = 2 pw(n)).
+//@ pure pw(n int) int
+//@ axiom pwZero(z int): pw(0) == 1
+//@ axiom pwStep(n int): n >= 0 ==> pw(n + 1) == 2 * pw(n) && pw(n) >= 1
+//@ axiom pwBig(n int): n >= 63 ==> pw(n) >= 9223372036854775808
+//@ lemma prodDouble(a int, b int)
+//@   interpret prod
+//@   ensures prod(a, 2 * b) == 2 * prod(a, b) && prod(2 * a, b) == 2 * prod(a, b) && prod(2 * a + 1, b) == 2 * prod(a, b) + b
+//@ lemma prodOne(a int, b int)
+//@   interpret prod
+//@   requires b == 1
+//@   ensures prod(a, b) == a
+//@ lemma prodPos(a int, b int)
+//@   interpret prod
+//@   requires a >= 0 && b >= 1
+//@   ensures prod(a, b) >= a && prod(b, a) >= a
+// Uniqueness of quotient and remainder, and the sign rules of truncated division.
+//@ lemma divUnique(a int, b int, q int, r int)
+//@   interpret prod
+//@   requires a == prod(q, b) + r && 0 <= r && r < b && a >= 0 && q >= 0
+//@   ensures tdiv(a, b) == q && tmod(a, b) == r
+//@   ensures tdiv(-a, b) == -q && tmod(-a, b) == -r && tdiv(a, -b) == -q && tmod(a, -b) == r && tdiv(-a, -b) == q && tmod(-a, -b) == -r
+
+//@ pure mag(h int, l int) int = h < 0 ? -(h * 4294967296 + l) : h * 4294967296 + l
+//@ pure u32w(h int) int = h % 4294967296
+
+// Go: x / y and x % y on int64 (truncated division, panic "integer divide by zero" iff y == 0, MinInt64 / -1 wraps).
+// Loop 1 scales the divisor: Y == B * 2^n.  Loop 2 (n+1 iterations) keeps A == Q * (B * 2^(n+1-i)) + X with 0 <= X < B * 2^(n+1-i).
+//@ js numeric.js $div64 int64
+//@ property C06 C08
+//@   param x: i64, y: i64, returnRemainder: bool
+//@   throws_if y.$high == 0 && y.$low == 0
+//@   throws_msg integer divide by zero
+//@   returns i64
+//@   ghost A = mag(x.$high, x.$low)
+//@   ghost B = mag(y.$high, y.$low)
+//@   loop 1 hint init: use pwZero(0)
+//@   loop 1 hint init: use prodOne(B, pw(0))
+//@   loop 1 invariant n <= 63
+//@   loop 1 invariant n >= 0 && yHigh >= 0 && yHigh <= 4294967295 && yLow >= 0 && yLow <= 4294967295
+//@   loop 1 invariant yHigh * 4294967296 + yLow == prod(B, pw(n)) && yHigh * 4294967296 + yLow >= 1
+//@   loop 1 hint head: use pwStep(n)
+//@   loop 1 hint head: use prodDouble(B, pw(n))
+//@   loop 1 hint head: use pwBig(n)
+//@   loop 1 hint head: use prodPos(pw(n), B)
+//@   loop 1 decreases 18446744073709551616 - (yHigh * 4294967296 + yLow)
+//@   loop 1 hint exit: use pwStep(n)
+//@   loop 1 hint exit: use prodDouble(B, pw(n))
+//@   loop 2 invariant 0 <= i && i <= n + 1 && low >= 0 && low <= 4294967295 && high >= -2147483648 && high <= 2147483647
+//@   loop 2 invariant xHigh >= 0 && xHigh <= 4294967295 && xLow >= 0 && xLow <= 4294967295 && yHigh >= 0 && yHigh <= 4294967295 && yLow >= 0 && yLow <= 4294967295
+//@   loop 2 invariant A == prod(u32w(high) * 4294967296 + low, prod(B, pw(n + 1 - i))) + (xHigh * 4294967296 + xLow)
+//@   loop 2 invariant xHigh * 4294967296 + xLow < prod(B, pw(n + 1 - i))
+//@   loop 2 invariant i <= n ==> yHigh * 4294967296 + yLow == prod(B, pw(n - i)) && yHigh * 4294967296 + yLow >= 1
+//@   loop 2 hint head: use pwStep(n - i) if i <= n
+//@   loop 2 hint head: use prodDouble(B, pw(n - i)) if i <= n
+//@   loop 2 hint head: use prodDouble(u32w(high) * 4294967296 + low, yHigh * 4294967296 + yLow)
+//@   loop 2 hint head: use prodPos(u32w(high) * 4294967296 + low, yHigh * 4294967296 + yLow) if i <= n
+//@   loop 2 hint head: use pwStep(n - i - 1) if i < n
+//@   loop 2 hint head: use prodDouble(B, pw(n - i - 1)) if i < n
+//@   loop 2 hint head: use prodPos(B, pw(n - i - 1)) if i < n
+//@   loop 2 decreases n + 1 - i
+//@   loop 2 hint exit: use pwZero(0)
+//@   loop 2 hint exit: use prodOne(B, pw(0))
+//@   hint return: use divUnique(A, B, u32w(high) * 4294967296 + low, xHigh * 4294967296 + xLow)
+//@   ensures result.$high >= -2147483648 && result.$high <= 2147483647 && result.$low >= 0 && result.$low <= 4294967295
+//@   ensures !returnRemainder ==> (result.$high * 4294967296 + result.$low - tdiv(x.$high * 4294967296 + x.$low, y.$high * 4294967296 + y.$low)) % 18446744073709551616 == 0
+//@   ensures returnRemainder ==> (result.$high * 4294967296 + result.$low - tmod(x.$high * 4294967296 + x.$low, y.$high * 4294967296 + y.$low)) % 18446744073709551616 == 0
+
+// The same function on uint64 operands (no sign handling is reached).
+//@ js numeric.js $div64 uint64
+//@ property C06 C08
+//@   param x: u64, y: u64, returnRemainder: bool
+//@   throws_if y.$high == 0 && y.$low == 0
+//@   throws_msg integer divide by zero
+//@   returns u64
+//@   ghost A = mag(x.$high, x.$low)
+//@   ghost B = mag(y.$high, y.$low)
+//@   loop 1 hint init: use pwZero(0)
+//@   loop 1 hint init: use prodOne(B, pw(0))
+//@   loop 1 invariant n <= 63
+//@   loop 1 invariant n >= 0 && yHigh >= 0 && yHigh <= 4294967295 && yLow >= 0 && yLow <= 4294967295
+//@   loop 1 invariant yHigh * 4294967296 + yLow == prod(B, pw(n)) && yHigh * 4294967296 + yLow >= 1
+//@   loop 1 hint head: use pwStep(n)
+//@   loop 1 hint head: use prodDouble(B, pw(n))
+//@   loop 1 hint head: use pwBig(n)
+//@   loop 1 hint head: use prodPos(pw(n), B)
+//@   loop 1 decreases 18446744073709551616 - (yHigh * 4294967296 + yLow)
+//@   loop 1 hint exit: use pwStep(n)
+//@   loop 1 hint exit: use prodDouble(B, pw(n))
+//@   loop 2 invariant 0 <= i && i <= n + 1 && low >= 0 && low <= 4294967295 && high >= -2147483648 && high <= 2147483647
+//@   loop 2 invariant xHigh >= 0 && xHigh <= 4294967295 && xLow >= 0 && xLow <= 4294967295 && yHigh >= 0 && yHigh <= 4294967295 && yLow >= 0 && yLow <= 4294967295
+//@   loop 2 invariant A == prod(u32w(high) * 4294967296 + low, prod(B, pw(n + 1 - i))) + (xHigh * 4294967296 + xLow)
+//@   loop 2 invariant xHigh * 4294967296 + xLow < prod(B, pw(n + 1 - i))
+//@   loop 2 invariant i <= n ==> yHigh * 4294967296 + yLow == prod(B, pw(n - i)) && yHigh * 4294967296 + yLow >= 1
+//@   loop 2 hint head: use pwStep(n - i) if i <= n
+//@   loop 2 hint head: use prodDouble(B, pw(n - i)) if i <= n
+//@   loop 2 hint head: use prodDouble(u32w(high) * 4294967296 + low, yHigh * 4294967296 + yLow)
+//@   loop 2 hint head: use prodPos(u32w(high) * 4294967296 + low, yHigh * 4294967296 + yLow) if i <= n
+//@   loop 2 hint head: use pwStep(n - i - 1) if i < n
+//@   loop 2 hint head: use prodDouble(B, pw(n - i - 1)) if i < n
+//@   loop 2 hint head: use prodPos(B, pw(n - i - 1)) if i < n
+//@   loop 2 decreases n + 1 - i
+//@   loop 2 hint exit: use pwZero(0)
+//@   loop 2 hint exit: use prodOne(B, pw(0))
+//@   hint return: use divUnique(A, B, u32w(high) * 4294967296 + low, xHigh * 4294967296 + xLow)
+//@   ensures result.$high >= 0 && result.$high <= 4294967295 && result.$low >= 0 && result.$low <= 4294967295
+//@   ensures !returnRemainder ==> (result.$high * 4294967296 + result.$low - tdiv(x.$high * 4294967296 + x.$low, y.$high * 4294967296 + y.$low)) % 18446744073709551616 == 0
+//@   ensures returnRemainder ==> (result.$high * 4294967296 + result.$low - tmod(x.$high * 4294967296 + x.$low, y.$high * 4294967296 + y.$low)) % 18446744073709551616 == 0
